@@ -123,3 +123,124 @@ func (c *Ctx) validateAsmTraces(files []string, sources []string) (*traceResult,
 	}
 	return res, nil
 }
+
+// parseFmtTrace accumulates parser and formatter events of recorded executions.
+type parseFmtTrace struct {
+	kinds  map[string]int  // "kind\x00line" -> occurrences
+	orders map[string]int  // order in which the directive patterns were tried for one line -> occurrences
+	fmt    strings.Builder // fmt.file / fmt.line events, process after process
+	nfmt   int
+}
+
+func newParseFmtTrace() *parseFmtTrace {
+	return &parseFmtTrace{kinds: map[string]int{}, orders: map[string]int{}}
+}
+
+// add reads one NDJSON trace file.
+func (t *parseFmtTrace) add(path string) error {
+	f, err := os.Open(path)
+	if err != nil {
+		return nil // the run may have ended before the first event
+	}
+	defer f.Close()
+	type pstate struct {
+		tries []string
+		fmt   [][]byte
+	}
+	byPid := map[int]*pstate{}
+	var pids []int
+	sc := bufio.NewScanner(f)
+	sc.Buffer(nil, 1<<26)
+	for sc.Scan() {
+		var ev map[string]any
+		if err := json.Unmarshal(sc.Bytes(), &ev); err != nil {
+			return fmt.Errorf("%s: bad trace line: %v", path, err)
+		}
+		pid := int(ev["pid"].(float64))
+		ps := byPid[pid]
+		if ps == nil {
+			ps = &pstate{}
+			byPid[pid] = ps
+			pids = append(pids, pid)
+		}
+		switch ev["ev"] {
+		case "parse.try":
+			ps.tries = append(ps.tries, ev["name"].(string))
+		case "parse.kind":
+			line, _ := ev["line"].(string)
+			t.kinds[fmt.Sprintf("%d\x00%s", int(ev["kind"].(float64)), line)]++
+			if len(ps.tries) == 7 { // a line no pattern claimed shows the complete iteration order
+				t.orders[strings.Join(ps.tries, ",")]++
+			}
+			ps.tries = nil
+		case "fmt.file", "fmt.line":
+			ps.fmt = append(ps.fmt, append([]byte{}, sc.Bytes()...))
+		}
+	}
+	for _, pid := range pids {
+		for _, b := range byPid[pid].fmt {
+			t.fmt.Write(b)
+			t.fmt.WriteByte('\n')
+			t.nfmt++
+		}
+	}
+	return sc.Err()
+}
+
+type parseFmtResult struct {
+	Accepted bool `json:"accepted"`
+	Kinds    int  `json:"kinds"`
+	Fmt      int  `json:"fmt"`
+	TotalK   int  `json:"total_kinds"`
+	TotalF   int  `json:"total_fmt"`
+	BadKind  string
+	BadFmt   string
+}
+
+// validate runs Trace_Parse on what was accumulated.
+func (t *parseFmtTrace) validate(c *Ctx) (*parseFmtResult, error) {
+	keys := make([]string, 0, len(t.kinds))
+	for k := range t.kinds {
+		keys = append(keys, k)
+	}
+	sort.Strings(keys)
+	var kd strings.Builder
+	var klines []string
+	for _, k := range keys {
+		parts := strings.SplitN(k, "\x00", 2)
+		var kind int
+		fmt.Sscanf(parts[0], "%d", &kind)
+		b, _ := json.Marshal(map[string]any{"kind": kind, "line": parts[1]})
+		kd.Write(b)
+		kd.WriteByte('\n')
+		klines = append(klines, string(b))
+	}
+	var res *parseFmtResult
+	_, err := c.runTLC(TLCRun{Module: "Trace_Parse", Seed: c.Seed, Timeout: 30 * time.Minute, Workers: 1,
+		Constants: map[string]string{"IncludeUnanchored": "= FALSE"}, Invs: []string{"Report"},
+		ExtraFiles: map[string]string{"kinds.ndjson": kd.String(), "fmt.ndjson": t.fmt.String()}}, func(raw []byte) error {
+		var r parseFmtResult
+		if err := mustJSON(raw, &r); err != nil {
+			return err
+		}
+		res = &r
+		return nil
+	})
+	if err != nil {
+		return nil, fmt.Errorf("parser/format trace validation: %v", err)
+	}
+	if res == nil {
+		return nil, fmt.Errorf("parser/format trace validation printed no report")
+	}
+	if !res.Accepted {
+		if res.Kinds <= len(klines) && res.Fmt == 0 && res.Kinds >= 1 {
+			res.BadKind = klines[res.Kinds-1]
+		} else {
+			fl := strings.Split(t.fmt.String(), "\n")
+			if res.Fmt >= 1 && res.Fmt <= len(fl) {
+				res.BadFmt = fl[res.Fmt-1]
+			}
+		}
+	}
+	return res, nil
+}
